@@ -194,6 +194,28 @@ Theorem C10_err_class_spec : forall excl rs k, err_class excl rs = Some k ->
 Proof. exact err_class_spec. Qed.
 Print Assumptions C10_err_class_spec.
 
+(* strand orderings: complement distributes over join/order; the LocationTuple of a one-strand feature depends only on the set
+   of its parts when their starts and stops are pairwise different, so complement(join(a,b)), join(complement(b),complement(a)) - the
+   INSDC way of writing a minus-strand feature 5'->3' - and complement(join(b,a)) all give the same tuple; on the minus strand the
+   tuple is ordered 5'->3', i.e. by descending stop *)
+Theorem C10_strand_order : forall es,
+  sem (LCompl (LJoin es)) = sem (LJoin (map LCompl es))
+  /\ (one_strand (sem (LCompl (LJoin es))) = true ->
+      NoDup (map lstart (sem (LCompl (LJoin es)))) -> NoDup (map lstop (sem (LCompl (LJoin es)))) ->
+      sort_locs (sem (LCompl (LJoin es))) = sort_locs (sem (LJoin (map LCompl (rev es))))
+      /\ sort_locs (sem (LCompl (LJoin es))) = sort_locs (sem (LCompl (LJoin (rev es)))))
+  /\ (forall e, one_strand (sem e) = true -> Forall (fun l => lstrand l = minus) (sem e) ->
+      StronglySorted (fun a b => lstop a >= lstop b) (sort_locs (sem e))).
+Proof. exact strand_order. Qed.
+Print Assumptions C10_strand_order.
+
+(* remote locations (accession:location, INSDC feature table 3.4.2.1) are not supported: a single location whose text contains ':' is
+   rejected with ValueError, by _parse_single_loc and by _parse_locs when it is not inside join/order/complement *)
+Theorem C10_remote_rejected : forall s, has colon s = true ->
+  parse_single s = RErr ValueError /\ (is_compound (strip s) = false -> parse_locs_str s = RErr ValueError).
+Proof. exact (fun s H => conj (remote_single s H) (remote_rejected s H)). Qed.
+Print Assumptions C10_remote_rejected.
+
 (* non-vacuity: a two-record file with a wrapped complement(join(1..5,<7..>10)), flags, '=' in a value and a multi-line
    translation is in the domain, reads to its view, and the view has the expected minus-strand locations *)
 Example C10_witness :
@@ -232,3 +254,25 @@ Example C10_witness_quals :
   = [(d "note", QI 3); (k_misc, QL [d "pseudo"; d "partial"]); (d "x", QI 5)]
   /\ wrap_at (d "join(12..34,56)") [6; 3; 0; 1]%nat = [d "join(1"; d "2.."; d "34,56)"].
 Proof. exact (conj eq_refl eq_refl). Qed.
+(* complement(join(1..5,7..10)) and join(complement(7..10),complement(1..5)) are the same feature: [7,10) before [1,5) on the minus strand *)
+Example C10_witness_strand_order :
+  sort_locs (sem (LCompl (LJoin [LRange false (d "1") false (d "5"); LRange false (d "7") false (d "10")])))
+  = [mkloc 6 10 minus 0; mkloc 0 5 minus 0]
+  /\ sort_locs (sem (LJoin [LCompl (LRange false (d "7") false (d "10")); LCompl (LRange false (d "1") false (d "5"))]))
+  = [mkloc 6 10 minus 0; mkloc 0 5 minus 0].
+Proof. exact (conj eq_refl eq_refl). Qed.
+(* a quoted value over three lines with blanks inside the pieces: joined without a separator *)
+Example C10_witness_multiline :
+  wf_qual (QText (d "note") [d "a long"; d "note over"; d "lines"]) = true
+  /\ quals_dict [QText (d "note") [d "a long"; d "note over"; d "lines"]] = [(d "note", QS (d "a longnote overlines"))].
+Proof. exact (conj eq_refl eq_refl). Qed.
+Example C10_witness_remote :
+  parse_locs_str (d "J00194.1:100..202") = RErr ValueError /\ parse_locs_str (d "join(1..5,J00194.1:100..202)") = RErr ValueError.
+Proof. exact (conj eq_refl eq_refl). Qed.
+(* double quotes inside a quoted value are kept as written (doubled, not unescaped); at the ends of a line the reader strips ALL of
+   them, so a value ending with an escaped quote is outside the domain: the reader loses the closing pair *)
+Example C10_witness_quotes :
+  wf_qual (QText (d "note") [unhex (bs "73617920222268692222206e6f77"%bs)]) = true
+  /\ wf_qual (QText (d "note") [unhex (bs "736179202222686922222222"%bs)]) = false
+  /\ strip_char dq (unhex (bs "22736179202222686922222222"%bs)) = unhex (bs "7361792022226869"%bs).
+Proof. exact ex_quotes. Qed.
